@@ -19,9 +19,12 @@
 EXTENDS ApiRoutes, FiniteSets, Sequences
 
 AuthOK(cfg, a) == IF cfg.creds THEN a = "exact" ELSE a \in {"none", "empty"}
-HostOK(h) == h \in {"configured", "localhost-name", "empty", "whitelisted"}
-\* the Origin header is judged if present, otherwise the Referer header
-OriginOK(o, r) == LET x == IF o = "none" THEN r ELSE o IN x \in {"none", "own", "whitelisted"}
+\* the Host header is checked (against DNS rebinding) only when the API is bound to a loopback interface
+HostOK(cfg, h) == cfg.public \/ h \in {"configured", "localhost-name", "empty", "whitelisted"}
+\* the Origin header is judged if present, otherwise the Referer header: the configured host and the whitelist; on a
+\* loopback interface both spellings of localhost are the node's own origin - on a public interface they are foreign
+OriginOK(cfg, o, r) == LET x == IF o = "none" THEN r ELSE o IN
+                       x \in {"none", "own", "whitelisted"} \/ (x \in {"localhost-alias", "loopback-alias"} /\ ~cfg.public)
 \* "a new token invalidates earlier ones": only the most recently issued, unexpired token of this node is valid
 TokenOK(t) == t = "valid"
 \* the implementation's tokens are stateless: any unexpired token this node signed passes (recorded finding)
@@ -33,8 +36,8 @@ Unsafe(m) == m \in {"POST", "PUT", "DELETE"}
 VerdictWith(cfg, route, q, TokOK(_)) ==
   IF ~AuthOK(cfg, q.auth) THEN "401"
   ELSE IF route.version = 2 /\ q.method = "POST" /\ ~JSONType(q.ctype) THEN "415"
-  ELSE IF ~cfg.disableHeaderCheck /\ ~HostOK(q.host) THEN "403-host"
-  ELSE IF ~cfg.disableHeaderCheck /\ ~OriginOK(q.origin, q.referer) THEN "403-origin"
+  ELSE IF ~cfg.disableHeaderCheck /\ ~HostOK(cfg, q.host) THEN "403-host"
+  ELSE IF ~cfg.disableHeaderCheck /\ ~OriginOK(cfg, q.origin, q.referer) THEN "403-origin"
   ELSE IF ~cfg.disableCSRF /\ Unsafe(q.method) /\ route.uri # "/api/v1/csrf" /\ ~TokOK(q.token) THEN "403-csrf"
   ELSE IF q.method \notin route.methods THEN "405"
   ELSE IF ~route.any /\ route.sets \cap cfg.enabled = {} THEN "403-disabled"
